@@ -510,6 +510,26 @@ def _make_free(draw, net):
     net["free"] = True
 
 
+def mix_constraints(draw, net):
+    """free 3D network: a constrained point may carry the datum with its position only (adj="XYz") or its height only
+    (adj="xyZ"); the first point keeps both.  Whether the rest still fixes the datum is for the oracle to decide."""
+    if net["dims"] != "3d":
+        return 0
+    n = 0
+    first = True
+    for p in net["points"]:
+        if p["xy"] == "constr" and p["z"] == "constr":
+            if first:
+                first = False
+                continue
+            g = draw(st.sampled_from(["both", "xy", "z"]))
+            if g == "xy":
+                p["z"] = "adj"; n += 1
+            elif g == "z":
+                p["xy"] = "adj"; n += 1
+    return n
+
+
 def truth_jacobian(net):
     """(A, cols) of the error-free model at the true coordinates; columns are the free/constrained
     coordinates (physical E,N,H) and one orientation per direction set; rows scaled to unit sigma."""
